@@ -233,6 +233,35 @@ def vector_params(cfg, value_of):
     return Parameters(ps), spec, labels
 
 
+def flag_changes(params, spec):
+    """Life cycle after the vectors were queried once: flags of the *existing* Parameter objects are changed in place (a free
+    parameter is fixed, a fixed one is released, a free one is given an expression).  Returns the expected free labels after
+    each change and what the real code selects then."""
+    stages = []
+    kinds = {lab: k for lab, k in spec}
+
+    def is_free(lab):
+        return not kinds[lab].startswith("fixed") and kinds[lab] != "expr"
+
+    free_labs = [lab for lab, _ in spec if is_free(lab)]
+    fixed_labs = [lab for lab, k in spec if k.startswith("fixed")]
+    cur = list(free_labs)
+    if len(free_labs) >= 2:
+        params.get(free_labs[0]).vary = False
+        cur = [l_ for l_ in cur if l_ != free_labs[0]]
+        stages.append((f"{free_labs[0]}.vary = False", list(cur), list(params.get_label_value_and_bounds_arrays(exclude_non_vary=True)[0])))
+    if fixed_labs:
+        params.get(fixed_labs[0]).vary = True
+        cur = [lab for lab, _ in spec if lab in cur or lab == fixed_labs[0]]
+        stages.append((f"{fixed_labs[0]}.vary = True", list(cur), list(params.get_label_value_and_bounds_arrays(exclude_non_vary=True)[0])))
+    if len(free_labs) >= 3:
+        params.get(free_labs[-1]).expression = f"${free_labs[1]} * 2 + 1"
+        cur = [l_ for l_ in cur if l_ != free_labs[-1]]
+        stages.append((f"{free_labs[-1]}.expression assigned", list(cur), list(params.get_label_value_and_bounds_arrays(exclude_non_vary=True)[0])))
+    alll = list(params.get_label_value_and_bounds_arrays()[0])
+    return stages, alll
+
+
 def _run_vector(cfg, rec):
     def fn(ctx):
         params, spec, labels = vector_params(cfg, sym)
@@ -261,7 +290,10 @@ def _run_vector(cfg, rec):
                 ctx.assume((y[k] >= b) if ge else (y[k] <= b))
         params.set_from_label_and_value_arrays(free, y)
         after = {lab: params.get(lab) for lab, _ in spec}
-        return params, spec, before, free, x0, lb, ub, alll, y, after
+        after = {lab: (lambda p_: type("Snap", (), {"value": p_.value, "expression": p_.expression, "vary": p_.vary, "non_negative": p_.non_negative,
+                                                    "minimum": p_.minimum, "maximum": p_.maximum}))(p_) for lab, p_ in after.items()}
+        changes = flag_changes(params, spec)
+        return params, spec, before, free, x0, lb, ub, alll, y, after, changes
 
     for ctx, (kind, out) in core.explore(fn, rec.stats, max_paths=300):
         rec.witness_path(ctx)
@@ -269,7 +301,7 @@ def _run_vector(cfg, rec):
         if kind == "exc":
             rec.unexpected(ctx, f"vector conversion raised {type(out).__name__}: {out}", "vector:exception", wit)
             continue
-        params, spec, before, free, x0, lb, ub, alll, y, after = out
+        params, spec, before, free, x0, lb, ub, alll, y, after, changes = out
         ax = inverse_axioms(ctx)
         want_free = [lab for lab, k in spec if not k.startswith("fixed") and k != "expr"]
         items = [
@@ -277,6 +309,9 @@ def _run_vector(cfg, rec):
              z3.BoolVal(list(free) == want_free and len(x0) == len(lb) == len(ub) == len(free)), "vector:free-selection"),
             ("unfiltered arrays list every parameter in declaration order", z3.BoolVal(list(alll) == [lab for lab, _ in spec]),
              "vector:all-labels"),
+            ("after flags of existing parameters were changed in place the optimiser's vector follows the current flags",
+             z3.BoolVal(all(want_ == got_ for _, want_, got_ in changes[0]) and changes[1] == [lab for lab, _ in spec]),
+             "vector:free-selection-after-flag-change"),
         ]
         for lab, k in spec:
             p = after[lab]
@@ -501,6 +536,10 @@ def replay(data):
                     s = [l_ for l_, kk in spec if kk != "expr"][0]
                     if abs(p.value - (params.get(s).value * 2 + 1)) > 1e-9:
                         return True, f"flags {cfg['arr']}: expression parameter {lab} = {p.value} is stale"
+            stages, alll = flag_changes(params, spec)
+            for what, want_, got_ in stages:
+                if want_ != got_:
+                    return True, f"flags {cfg['arr']}: after the in-place change '{what}' the optimiser vector holds {got_}, expected {want_}"
         return False, "vector ok"
     # optimize
     for e in (c02.salted("r1"), c02.DefaultEnv(dict(env))):
